@@ -338,6 +338,35 @@ def run_ctor(spec, rec):
                               {"form": form, "value": v, "error": ne, "unit": unit, "got": repr(bad)},
                               form=form, sign="negative" if v < 0 else "positive")
 
+    # a Measurement handed to the Quantity constructor: refused, or the same measurement (converted like
+    # m.to(units) when units are named) - never the old numbers under new units
+    pairs = [("meter", "centimeter"), ("kilogram", "gram"), ("degree_Celsius", "kelvin"), ("degree_Celsius", "degree_Fahrenheit"),
+             ("newton", "millinewton"), ("hour", "second")]
+    for i in range(max(12, spec["n"] // 40)):
+        src, dst = pairs[i % len(pairs)]
+        v, e = rng.uniform(1, 90), rng.uniform(0.01, 2)
+        m = M(v, e, src)
+        for units in (dst, None, src):
+            rec.count("quantity_from_measurement")
+            rec.case(("Q(M)", src, units, i), nontrivial=units not in (None, src))
+            try:
+                r = Q(m, units) if units is not None else Q(m)
+            except Exception:  # noqa: BLE001
+                rec.observe("quantity_from_measurement_outcomes", "refused")
+                continue
+            rec.observe("quantity_from_measurement_outcomes", "accepted")
+            try:
+                ref = m.to(units) if units is not None else m
+                mag = r.magnitude
+                ok = str(r.units) == str(ref.units) and close(float(getattr(mag, "nominal_value", mag)), ref.value.magnitude, 1e-9) \
+                    and close(float(getattr(mag, "std_dev", 0.0)), ref.error.magnitude, 1e-9)
+            except Exception as ex:  # noqa: BLE001
+                ok = False
+            if not ok:
+                rec.violation("ctor-quantity-from-measurement", {"measurement": [v, e, src], "units": units, "got": repr(r)[:200],
+                                                               "same_as": repr(ref)[:200] if "ref" in dir() else "?"},
+                              form="quantity-from-measurement", units="other" if units == dst else "same-or-none")
+
 
 # ------------------------------------------------------------------------------------------
 # conv: all multiplicative pairs
